@@ -2863,6 +2863,10 @@ function_call:
               $$ = $3;
               
               if (*name == ':'){
+                  /* like a local call: the inherited code runs on the variables of the
+                   * object it was compiled for, such a functional must not be re-bound */
+                  if (current_function_context)
+                      current_function_context->bindable = FP_NOT_BINDABLE;
                   arrange_call_inherited(name + 1, $$);
               } else {
                   int f;
